@@ -259,6 +259,23 @@ def build_queries(funcs, variants, profile):
                 else:
                     qs.append(Query(f"unsup:{base}:{profile}:eq{i}", decls_of(params), o.cond(), "untranslated / panicking path is unreachable: " + str(o.value),
                                     inputs_of(params), dict(meta, prop="C09", obligation="unsupported-path-unreachable", reason=str(o.value))))
+    # ---- the zero-divisor test itself (C08: not too weak; C09: not too strong)
+    ztable = {"Integer": f"(= p1_Integer {bvconst(0, 64)})", "Float": "(fp.isZero p1_Float)", "Byte": f"(= p1_Byte {bvconst(0, 8)})"}
+    for k, want in ztable.items():
+        try:
+            f, params, outs = run_fn("is_zero", [k])
+        except Exception as e:
+            notes.append(f"is_zero {k}: {e}")
+            continue
+        for prop_ in ("C08", "C09"):
+            meta = {"function": f.name, "op": "is_zero", "kinds": [k], "profile": profile}
+            for i, o in enumerate(outs):
+                if o.kind == "return" and isinstance(o.value, Sc):
+                    qs.append(Query(f"{prop_.lower()}:is_zero_{SHORT[k]}:{profile}:{i}", decls_of(params), f"(and {o.cond()} (not (= {o.value.term} {want})))",
+                                    "is_zero holds exactly for the numeric zeros", inputs_of(params), dict(meta, prop=prop_, obligation="zero-test")))
+                elif prop_ == "C09":
+                    qs.append(Query(f"unsup:is_zero_{SHORT[k]}:{profile}:{i}", decls_of(params), o.cond(), "untranslated / panicking path is unreachable: " + str(o.value),
+                                    inputs_of(params), dict(meta, prop="C09", obligation="unsupported-path-unreachable", reason=str(o.value))))
     # ---- truthiness, scalar kinds (C06)
     table = {"Bool": "(not p1_Bool)", "Integer": f"(= p1_Integer {bvconst(0, 64)})", "Float": "(fp.isZero p1_Float)",
              "Char": f"(= p1_Char {bvconst(0, 32)})", "Byte": f"(= p1_Byte {bvconst(0, 8)})", "Null": "true"}
@@ -724,6 +741,12 @@ def py_ref(item):
             x, y = fl(ka, a), fl(kb, b)
         r = {"eq": x == y, "gt": x > y, "ge": x >= y}[fn]
         return "b:%d" % int(r)
+    if fn == "is_zero":
+        if ka in ("I", "B"):
+            return "b:%d" % int(a == 0)
+        if ka == "F":
+            return "b:%d" % int(a == 0.0)
+        return "b:0"
     if fn == "is_falsey":
         if ka in ("I", "B", "C"):
             return "b:%d" % int(a == 0)
